@@ -242,15 +242,15 @@ func fourqKinds() []kind {
 			o.Out("R", out[:])
 			o.OutBool("on", R.IsOnCurve())
 		}},
-		{"fourq.Unmarshal", 150, 6000, func(r *lib.Rng, k int, o *rec) {
+		{"fourq.Unmarshal", 240, 9000, func(r *lib.Rng, k int, o *rec) {
 			var in, out, s [32]byte
-			switch k % 5 {
+			switch k % 6 {
 			case 0: // honest encoding, sometimes damaged
 				r.Read(s[:])
 				var G fourq.Point
 				G.ScalarBaseMult(&s)
 				G.Marshal(&in)
-				if k%10 == 0 {
+				if k%12 == 0 {
 					in[r.Intn(32)] ^= 1 << uint(r.Intn(8))
 				}
 			case 1:
@@ -258,9 +258,11 @@ func fourqKinds() []kind {
 				if r.Intn(4) != 0 {
 					in[15] &= 0x7f
 				}
-			case 2, 3:
+			case 2:
 				copy(in[:], repLimbBytes(r, 32, 1, 0xff))
 				in[15] &= 0x7f
+			case 3, 4:
+				copy(in[:], fourqEncoding(r))
 			default:
 				r.Read(in[:])
 				in[15] &= 0x7f
